@@ -1243,6 +1243,9 @@ func (c *ErrorConverter) To(obj Object) (interface{}, error) {
 }
 
 func (c *ErrorConverter) From(obj interface{}) (Object, error) {
+	if obj == nil {
+		return Nil, nil // a nil error, e.g. an unset struct field of type error
+	}
 	return NewError(obj.(error)), nil
 }
 
